@@ -31,7 +31,7 @@ ASSUMPTIONS = [
     "a recomputed loss within 1e-12 relative of the recorded one counts as equal (BLAS summation order may depend on buffer alignment); counted as loss_ulp_wobble",
     "third-party estimator failures on extreme histories end the run early (counted), they are C11's subject, not C02's",
 ]
-REQUIRED_COUNTERS = {"runs_converging_every_batch": 5, "rl_scheduled_runs": 5, "failed_batches_then_continued": 5, "model_invocations_matched": 200, "runs_with_repeated_proposals": 5, "runs_with_tied_losses": 4, "runs": 30, "rows_checked": 200, "members_decoded": 300, "losses_recomputed": 200, "snapshots": 100,
+REQUIRED_COUNTERS = {"batch_size_changed_between_calls": 8, "runs_converging_every_batch": 5, "rl_scheduled_runs": 5, "failed_batches_then_continued": 5, "model_invocations_matched": 200, "runs_with_repeated_proposals": 5, "runs_with_tied_losses": 4, "runs": 30, "rows_checked": 200, "members_decoded": 300, "losses_recomputed": 200, "snapshots": 100,
                      "multi_call_runs": 10, "extreme_runs": 5, "tile_repeat_distinguishable": 5}
 SHARDS = {"quick": 16, "thorough": 16}
 SHARD_WATCHDOG = {"quick": 1500, "thorough": 10800}
@@ -122,6 +122,13 @@ def run_case(desc, ctx):
                     cal.set_scheduler(sch)
                 wit.setdefault("set_scheduler_before_call", {})[ci] = {"lineup": [d["kind"] for d in new], "served_another_calibrator_before": used}
                 c["set_scheduler_between_calls"] = c.get("set_scheduler_between_calls", 0) + 1
+            if ci > 0 and rng.random() < 0.15 and not rl:
+                # a public attribute changed between two calls (adaptive batch sizes): rows and labels follow what is actually proposed
+                smp_ = cal.scheduler.samplers[int(rng.integers(len(cal.scheduler.samplers)))]
+                if type(smp_).__name__ not in ("ParticleSwarmSampler", "BestBatchSampler"):
+                    smp_.batch_size = int(rng.integers(1, 5))
+                    c["batch_size_changed_between_calls"] = c.get("batch_size_changed_between_calls", 0) + 1
+                    wit.setdefault("batch_size_changed_before_call", []).append(ci)
             if ci > 0 and counting is not None and rng.random() < 0.2:
                 # one batch fails in the model (nothing of it may be recorded), then the run simply goes on
                 good = cal.model
